@@ -162,6 +162,19 @@ pub struct Cfg {
     pub client_tp: Vec<Value>,
     #[serde(default)]
     pub server_tp: Vec<Value>,
+    /// C14: server token key (default 0x70ce)
+    #[serde(default)]
+    pub token_key: Option<u64>,
+    /// C14: lifetime of NEW_TOKEN tokens (default: quinn's two weeks)
+    #[serde(default)]
+    pub validation_token_lifetime_ms: Option<u64>,
+    /// C14: "" quinn's default log, "bloom:<max_bytes>:<expected_hits>", "none"
+    #[serde(default)]
+    pub token_log: String,
+    /// C14: "" per-connection default store (old behaviour), "cache:<servers>:<per_server>" one
+    /// logging TokenMemoryCache shared by all clients
+    #[serde(default)]
+    pub token_store: String,
 }
 
 impl Default for Cfg {
@@ -558,6 +571,10 @@ pub struct World {
     pub issued: Vec<Vec<Vec<u8>>>,
     pub client_tcfg: Arc<TransportConfig>,
     pub token_store: Option<Arc<dyn quinn_proto::TokenStore>>,
+    /// C14: logging token store (same object as `token_store` when configured) and Retry tokens seen
+    pub tok: Option<Arc<crate::tokens::LogStore>>,
+    pub tok_retry: Vec<Vec<u8>>,
+    pub tok_srv_log: Option<Arc<Mutex<Vec<Value>>>>,
 }
 
 pub struct MitmCtx<'a> {
@@ -683,8 +700,9 @@ impl World {
         let server_crypto = Arc::new(server_crypto);
         let mut scfg = ServerConfig::new(
             server_crypto.clone(),
-            Arc::new(toycrypto::ToyTokenKey(0x70ce)),
+            Arc::new(toycrypto::ToyTokenKey(cfg.token_key.unwrap_or(0x70ce))),
         );
+        crate::tokens::configure_server(&cfg, &mut scfg);
         scfg.transport_config(Arc::new(transport(&cfg.server)));
         scfg.migration(cfg.migration);
         scfg.time_source(Arc::new(VClock(clock.clone())));
@@ -787,8 +805,12 @@ impl World {
             issued: Vec::new(),
             client_tcfg,
             token_store: None,
+            tok: None,
+            tok_retry: Vec::new(),
+            tok_srv_log: None,
             cfg,
         };
+        crate::tokens::configure_world(&mut w);
         w.issued = vec![Vec::new(); w.nodes.len()];
         let c = &w.cfg;
         w.trace.push(json!({
@@ -900,6 +922,7 @@ impl World {
                 let post = self.probe(n, ch.0);
                 self.trace
                     .push(json!({"ev":"Connect","t":t,"n":n,"c":ch.0,"ok":true,"post":post,"uid":self.next_uid - 1}));
+                crate::tokens::drain(self, n, self.next_uid - 1);
                 if let Some(b) = self.tp_client.lock().unwrap().last() {
                     let mut v = tp_json(b);
                     v["ev"] = json!("TP");
@@ -1236,6 +1259,11 @@ impl World {
         let mut ctx = self.nodes[n].resp_tx.clone();
         ctx.next_pn = [0; 3];
         let pkts = wire::parse_datagram(&data, &mut ctx).unwrap_or_default();
+        if why == "retry" {
+            if let Some(p) = pkts.first() {
+                self.tok_retry.push(p.token.clone());
+            }
+        }
         let size = data.len();
         let (id, fate) = self.send_dgram(n, t.destination, data, t.ecn, &pkts);
         let tnow = self.now_us;
@@ -1268,6 +1296,9 @@ impl World {
         let r = self.guarded("endpoint.handle", |w| {
             w.nodes[n].ep.handle(now, src, None, ecn, data, &mut buf)
         });
+        if self.tok_srv_log.is_some() {
+            crate::tokens::drain(self, n, -1);
+        }
         let tnow = self.now_us;
         let mut rctx = TxCtx {
             dst_cid_len: self.nodes[n].cid_len,
@@ -1317,6 +1348,11 @@ impl World {
             "size":size,"cls":d.cls,"first":d.data.first().copied().unwrap_or(0),"pk":pk,
             "exact":d.exact,"ipk":ipk,
             "otypes":d.pkts.iter().map(|p| match p.ty { PType::Retry => "R", PType::VersionNeg => "V", _ => "P" }).collect::<String>()});
+        let mut base = base;
+        if d.data.len() > 5 && d.data[0] & 0xb0 == 0xb0 && d.data[1..5] != [0, 0, 0, 0] {
+            // Retry packet: keep the bytes, the integrity tag is judged downstream (C14)
+            base["retry_raw"] = json!(hex(&d.data));
+        }
         let Some(r) = r else { return };
         match r {
             None => {
@@ -1389,6 +1425,8 @@ impl World {
                 v["pre"] = pre;
                 v["post"] = self.probe(n, c);
                 self.trace.push(v);
+                let uid = self.nodes[n].conns[&c].uid;
+                crate::tokens::drain(self, n, uid);
                 self.after_input(n, c);
             }
             Some(DatagramEvent::NewConnection(inc)) => {
@@ -1813,6 +1851,13 @@ pub fn tp_edit(b: &[u8], edits: &[Value]) -> Vec<u8> {
         let v = e[1].as_i64().unwrap_or(0);
         if v == -1 {
             items.retain(|x| x.0 != id);
+        } else if v == -4 {
+            // alter the last byte of the parameter's value
+            if let Some(x) = items.iter_mut().find(|x| x.0 == id) {
+                if let Some(b) = x.1.last_mut() {
+                    *b ^= 1;
+                }
+            }
         } else if v == -3 {
             // duplicate the parameter
             if let Some(x) = items.iter().find(|x| x.0 == id).cloned() {
@@ -1856,6 +1901,13 @@ pub fn tp_json(b: &[u8]) -> Value {
         let Some(body) = r.take(len as usize) else { break };
         let mut br = wire::Rd::new(body);
         let val = br.var().unwrap_or(0).min(1 << 30);
+        // connection ID authentication parameters (C14): hex, absent = key missing
+        match id {
+            0x00 => v["odcid"] = json!(hex(body)),
+            0x0f => v["iscid"] = json!(hex(body)),
+            0x10 => v["rscid"] = json!(hex(body)),
+            _ => {}
+        }
         let key = match id {
             0x01 => "idle",
             0x03 => "udp",
@@ -1900,7 +1952,7 @@ pub fn pkt_json(p: &Pkt) -> Value {
     };
     json!({"ty":ty,"sp":p.ty.space().map_or(-1, |x| x as i64),"pn":p.pn,"kp":p.key_phase,
         "len":p.len,"ae":p.ack_eliciting(),"ok":p.frames_ok,"tok":p.token.len(),
-        "dcid":hex(&p.dcid),"scid":hex(&p.scid),
+        "dcid":hex(&p.dcid),"scid":hex(&p.scid),"tokh":hex(&p.token),
         "fr":p.frames.iter().map(frame_json).collect::<Vec<_>>()})
 }
 
@@ -1926,7 +1978,7 @@ pub fn frame_json(f: &Frame) -> Value {
         } => json!({"f":"RESET_STREAM","id":id,"code":code,"fin":final_size}),
         Frame::StopSending { id, code } => json!({"f":"STOP_SENDING","id":id,"code":code}),
         Frame::Crypto { off, len } => json!({"f":"CRYPTO","off":off,"len":len}),
-        Frame::NewToken { token } => json!({"f":"NEW_TOKEN","len":token.len()}),
+        Frame::NewToken { token } => json!({"f":"NEW_TOKEN","len":token.len(),"tok":hex(token)}),
         Frame::Stream {
             id, off, len, fin, ..
         } => json!({"f":"STREAM","id":id,"off":off,"len":len,"fin":fin}),
